@@ -156,6 +156,9 @@ func mainRun(args []string) int {
 		}
 		if v.NotJudged != "" {
 			res.NotJudged[v.NotJudged]++
+			if os.Getenv("SIM_DEBUG") != "" {
+				fmt.Fprintf(os.Stderr, "not judged idx=%d: %s: %s\n", idx, v.NotJudged, v.Msg)
+			}
 		}
 		h := fmt.Sprintf("%016x", hashStr(v.Sig))
 		if v.NonTrivial {
